@@ -69,8 +69,9 @@ func downIDs(ps []*pdpb.PeerStats) []uint64 {
 }
 
 func viewOfInfo(r *core.RegionInfo) view {
-	rest := fmt.Sprintf("size=%d keys=%d w=%d r=%d pending=%v down=%v", r.GetApproximateSize(), r.GetApproximateKeys(),
-		r.GetBytesWritten(), r.GetBytesRead(), peerIDs(r.GetPendingPeers()), downIDs(r.GetDownPeers()))
+	rest := fmt.Sprintf("size=%d keys=%d w=%d/%d r=%d/%d pending=%v down=%v repl=%d/%d", r.GetApproximateSize(), r.GetApproximateKeys(),
+		r.GetBytesWritten(), r.GetKeysWritten(), r.GetBytesRead(), r.GetKeysRead(), peerIDs(r.GetPendingPeers()), downIDs(r.GetDownPeers()),
+		int(r.GetReplicationStatus().GetState()), r.GetReplicationStatus().GetStateId())
 	return mkView(r.GetMeta(), r.GetLeader(), r.GetTerm(), rest)
 }
 
@@ -279,6 +280,92 @@ type lightTarget struct {
 	st     *core.Storage
 	cancel context.CancelFunc
 	vc     map[*core.RegionInfo]view // rendering cache (only used from the sequential judge)
+
+	// region storage (leveldb with a write batch), as a real server uses it; nil = plain kv storage
+	rs       *core.RegionStorage
+	rsDir    string
+	rsCancel context.CancelFunc
+	stores   int
+}
+
+// newLightRS is newLight with the storage a real server has: core.NewStorage(kv, WithRegionStorage)
+// switched to the region storage (config use-region-storage, the default).
+func newLightRS(stores int, dir string) (*lightTarget, error) {
+	t := newLight(stores)
+	rctx, rcancel := context.WithCancel(context.Background())
+	rs, err := core.NewRegionStorage(rctx, dir, nil)
+	if err != nil {
+		rcancel()
+		t.Close()
+		return nil, err
+	}
+	st := core.NewStorage(t.kv, core.WithRegionStorage(rs))
+	st.SwitchToRegionStorage()
+	t.rc.SetStorage(st)
+	t.st, t.rs, t.rsDir, t.rsCancel, t.stores = st, rs, dir, rcancel, stores
+	return t, nil
+}
+
+// RestartRS does what pd-server does on shutdown and the next leader on start-up: the server context
+// is cancelled BEFORE the region storage is closed (cancelFirst), the storage is closed, opened again
+// from disk, and a fresh cache is filled from it.
+func (t *lightTarget) RestartRS(cancelFirst bool) (*lightTarget, error) {
+	if cancelFirst {
+		t.rsCancel()
+	}
+	if err := t.rs.Close(); err != nil {
+		return nil, err
+	}
+	t.rsCancel()
+	t.cancel()
+	rctx, rcancel := context.WithCancel(context.Background())
+	rs, err := core.NewRegionStorage(rctx, t.rsDir, nil)
+	if err != nil {
+		rcancel()
+		return nil, err
+	}
+	st := core.NewStorage(t.kv, core.WithRegionStorage(rs))
+	st.SwitchToRegionStorage()
+	ctx, cancel := context.WithCancel(context.Background())
+	rc := cluster.NewRaftCluster(ctx, "", 1, nil, nil, nil)
+	rc.InitCluster(mockid.NewIDAllocator(), persistOptions(), st, core.NewBasicCluster())
+	c, err := rc.LoadClusterInfo()
+	if err != nil || c == nil {
+		cancel()
+		rcancel()
+		return nil, fmt.Errorf("LoadClusterInfo: %v", err)
+	}
+	return &lightTarget{rc: rc, kv: t.kv, st: st, cancel: cancel, rs: rs, rsDir: t.rsDir, rsCancel: rcancel, stores: t.stores}, nil
+}
+
+// StoredAsync: with a region storage the disk content changes on the flush schedule.
+func (t *lightTarget) StoredAsync() bool { return t.rs != nil }
+
+// CloseRS releases the region storage.
+func (t *lightTarget) CloseRS() {
+	if t.rs != nil {
+		t.rs.Close()
+		t.rsCancel()
+	}
+	t.cancel()
+}
+
+func (t *lightTarget) stored() map[uint64]string {
+	if t.rs == nil {
+		return storedRegions(t.kv)
+	}
+	// what is on disk (the write batch is not part of the durable state)
+	out := map[uint64]string{}
+	keys, vals, err := t.rs.LoadRange(regionKeyPrefix, "raft/r0", 0)
+	if err != nil {
+		return out
+	}
+	for i, key := range keys {
+		if id, err := strconv.ParseUint(strings.TrimPrefix(key, regionKeyPrefix), 10, 64); err == nil {
+			out[id] = vals[i]
+		}
+	}
+	return out
 }
 
 // viewCached renders r once per RegionInfo object (they are read-only once created; the plain fields
@@ -378,7 +465,7 @@ func (t *lightTarget) Observe() *obs {
 		o.Scan = append(o.Scan, t.viewCached(r))
 	}
 	o.Count = t.rc.GetRegionCount()
-	o.Stored = storedRegions(t.kv)
+	o.Stored = t.stored()
 	return o
 }
 
